@@ -975,12 +975,47 @@ def gen_access_def(r):
     return Grammar(terms, out, r.random() < 0.8)
 
 
+def gen_prefix_def(r):
+    """symbol names that share a very long prefix and differ only at the end (or are prefixes of each
+    other): whatever compares names must compare all of them"""
+    k = r.choice([150, 197, 198, 199, 200, 201, 255, 256, 300, 1000])
+    P = 'statement_list_' + 'x' * max(0, k - 15)
+    n = r.choice([2, 3, 8, 40])
+    nts = [P + '%d' % (10 + 13 * i) for i in range(n)]
+    if r.random() < 0.3: nts[1] = P            # a proper prefix of the others
+    tms = [(P + 't%d' % i, 300 + i) for i in range(n)] + [('c', 99)]
+    rules = [('S', 's%d' % i, 1, [nts[i], tms[i][0]], [0, 1]) for i in range(n)] + \
+            [(nts[i], 'n%d' % i, 1, ['c'] + [tms[(i + 1) % n][0]] * (i % 2), [0]) for i in range(n)]
+    return Grammar(tms, rules, r.random() < 0.5)
+
+
+def gen_prefix_parse_cases(seed, count):
+    """parses through grammars whose symbol names share a very long prefix: a sentence of one
+    alternative, the same tokens with the terminal of another alternative (a non-sentence)"""
+    r = random.Random(seed)
+    cases = []
+    for i in range(count):
+        g = gen_prefix_def(r)
+        n = len(g.terms) - 1
+        c = ['case PFX-%d-%d parse' % (seed, i)] + g.text(0) + ['op 1 create 0', 'op 2 def 0 0', 'op 3 set 0 rec 0']
+        k = 3
+        for la in (0, 1, 2):
+            k += 1; c.append('op %d set 0 la %d' % (k, la))
+            for j in r.sample(range(n), min(n, 3)):
+                for tj in (j, (j + 1) % n):
+                    toks = [99] + ([g.terms[(j + 1) % n][1]] if j % 2 else []) + [g.terms[tj][1]]
+                    k += 1; c.append('op %d parse 0 user user 15 %s' % (k, ' '.join(map(str, toks))))
+        c += ['op %d free 0' % (k + 1), 'end']
+        cases.append(c)
+    return cases
+
+
 def gen_def_cases(seed, count):
     r = random.Random(seed)
     cases = []
     for i in range(count):
         z = r.random()
-        g = gen_chain_def(r) if z < 0.22 else gen_loop_def(r) if z < 0.40 else gen_access_def(r) if z < 0.5 else gen_def_grammar(r)
+        g = gen_prefix_def(r) if z < 0.06 else gen_chain_def(r) if z < 0.22 else gen_loop_def(r) if z < 0.40 else gen_access_def(r) if z < 0.5 else gen_def_grammar(r)
         c = ['case C10-%d-%d def' % (seed, i)] + g.text(0)
         c += ['op 1 create 0', 'op 2 def 0 0', 'op 3 err 0', 'op 4 set 0 rec 0', 'op 5 parse 0 user user 1', 'op 6 err 0', 'op 7 free 0', 'end']
         cases.append(c)
